@@ -169,6 +169,19 @@ func runC02(c *eng.Ctx) {
 	// ---- R7
 	r7 := c.Rule("C02.R7", "D+F:dedupe", "informers are created per distinct name and namespace: MonitorConfig.names()/namespaces() return MatchNames only through a de-duplicating producer", 3)
 	runC02R7(c, r7)
+
+	// ---- R8 shared informer lifetime (shared with C01.R13): a stopped shared informer freezes the snapshots of the
+	// bindings that still use it
+	r8 := c.Rule("C02.R8", "D:provenance+C", "a shared informer runs under its factory's detached context and is cancelled only when its last handler registration is removed", 3)
+	runSharedInformerLifetime(c, r8)
+
+	// ---- R9 every watch event updates the cache before the handler can return (shared with C01.R4 / C08.R1): an
+	// early return (e.g. for a tombstone that is not unwrapped) leaves a deleted object in snapshots for ever
+	r9 := c.Rule("C02.R9", "B:must-pass", "handleWatchEvent: every exit other than `stopped` and the filter error is preceded by the cache update", 1)
+	if hwe := r9.NeedFunc(pkgKem + ".(*resourceInformer).handleWatchEvent"); hwe != nil {
+		evNode, _ := hweEventNode(p, hwe)
+		cacheBeforeExit(c, r9, hwe, evNode)
+	}
 }
 
 func runC02R2(c *eng.Ctx, r *eng.RuleCtx) {
